@@ -65,6 +65,9 @@ def scenarios():
     S["reopen-after-callback"] = {"alice": [("open", "s", "bob", 0, False), ("recv", "s"), ("send", "s", "a1"), ("send", "s", "a2")],
                                   "bob": [("open", "s", "alice", 0, True), ("cb_off", "s"), ("close", "s"), ("open", "s2", "alice", 0, False),
                                           ("send", "s2", "go"), ("recv", "s2"), ("recv", "s2")]}
+    # one StructuredMessage object refilled and sent three times
+    S["structured-reused-object"] = {"alice": [("open", "s", "bob", 0, False), ("sends_reuse", "s", "a1"), ("sends_reuse", "s", "a2"), ("sends_reuse", "s", "a3")],
+                                     "bob": [("open", "s", "alice", 0, False), ("recvs", "s"), ("recvs", "s"), ("recvs", "s")]}
     S["broadcast-3"] = {"alice": [("bopen", "c", ["bob", "charlie"]), ("bsend", "a1"), ("brecv",), ("brecv",)],
                         "bob": [("bopen", "c", ["alice", "charlie"]), ("bsend", "b1"), ("brecv",), ("brecv",)],
                         "charlie": [("bopen", "c", ["alice", "bob"]), ("bsend", "c1"), ("brecv",), ("brecv",)]}
@@ -140,11 +143,18 @@ class Endpoint:
             if sock is None:
                 continue
             sid = sock.id
-            if k in ("send", "sends"):
+            if k in ("send", "sends", "sends_reuse"):
                 s.record(("call", me, "send", sock.remote_app_name, sid, op[2]))
                 try:
                     if k == "send":
                         sock.send(op[2])
+                    elif k == "sends_reuse":
+                        # one message object, refilled and sent again (a sender loop that reuses its buffer)
+                        if getattr(self, "msgobj", None) is None:
+                            self.msgobj = StructuredMessage(header="h", payload=op[2])
+                        else:
+                            self.msgobj.payload = op[2]
+                        sock.send_structured(self.msgobj)
                     else:
                         sock.send_structured(StructuredMessage(header="h-" + op[2], payload=op[2]))
                     s.record(("ret", me, "send", sock.remote_app_name, sid, op[2], "ok"))
@@ -354,6 +364,10 @@ def _sock_remote(script, ep, sn):
 def cases(ctx):
     names = list(scenarios())
     k = 0
+    for n, drain in ((70000, "after"), (66000, "concurrent")) if ctx.quick else ((70000, "after"), (66000, "concurrent"), (300000, "after"), (2**17 + 1, "after")):
+        k += 1
+        if ctx.mine(k):
+            yield {"kind": "deep-queue", "n": n, "drain": drain, "socket_id": k % 3}
     for n in names:
         k += 1
         if ctx.mine(k):
@@ -368,8 +382,65 @@ def cases(ctx):
                    "limit": (150 if big else 1500) if ctx.quick else (3000 if big else 60000)}
 
 
+def _deep_queue(ctx, case):
+    """Free-running threads (no controlled scheduler): a sender far ahead of its receiver. Every message exactly once, in order,
+    however long the queue gets."""
+    import threading
+    import netqasm.sdk.classical_communication.thread_socket.socket_hub as hubmod
+    from netqasm.sdk.classical_communication.thread_socket.socket import ThreadSocket
+    vs.uninstall()
+    hubmod.reset_socket_hub()
+    n = case["n"]
+    got, err = [], []
+
+    def alice():
+        try:
+            sock = ThreadSocket("alice", "bob", socket_id=case["socket_id"], timeout=30)
+            for i in range(n):
+                sock.send(f"m{i}")
+            sent.set()
+            done.wait(120)
+        except BaseException as e:  # noqa
+            err.append(f"sender: {type(e).__name__}: {e}")
+            sent.set()
+
+    def bob():
+        try:
+            sock = ThreadSocket("bob", "alice", socket_id=case["socket_id"], timeout=30)
+            if case["drain"] == "after":
+                sent.wait(120)
+            for i in range(n):
+                got.append(sock.recv(block=True, timeout=10))
+            try:
+                extra = sock.recv(block=False)
+                err.append(f"a non-blocking receive after all {n} messages were received returned {extra!r}")
+            except RuntimeError:
+                pass
+        except BaseException as e:  # noqa
+            err.append(f"receiver after {len(got)} of {n} messages: {type(e).__name__}: {e}")
+        finally:
+            done.set()
+    sent, done = threading.Event(), threading.Event()
+    ths = [threading.Thread(target=alice, daemon=True), threading.Thread(target=bob, daemon=True)]
+    for t in ths:
+        t.start()
+    for t in ths:
+        t.join(300)
+    hubmod.reset_socket_hub()
+    ctx.count("deep_queue_messages", len(got))
+    want = [f"m{i}" for i in range(n)]
+    if err:
+        ctx.fail(case, f"queue of {n} pending messages: {err[0]}" + (f" (first message received: {got[0]!r})" if got else ""))
+    elif got != want:
+        i = next((j for j, (a, b) in enumerate(zip(got, want)) if a != b), min(len(got), len(want)))
+        ctx.fail(case, f"queue of {n} pending messages: receive {i} returned {got[i] if i < len(got) else None!r} instead of {want[i]!r}")
+    ctx.case(case, True)
+
+
 def run_case(ctx, case):
     from vf.common import h64
+    if case["kind"] == "deep-queue":
+        return _deep_queue(ctx, case)
     script = scenarios()[case["scenario"]]
     if case["kind"] == "replay":
         picks = list(case["choices"])
